@@ -78,3 +78,15 @@ package issuelink
 //@           invariant k >= 0 && err == chainAt(old(err), k) && (forall j int :: 0 <= j && j < k ==> chainAt(old(err), j) != nil)
 //@           invariant len(issues) == linkCount(old(err), k)
 //@           invariant forall j int :: 0 <= j && j < k && hasLink(chainAt(old(err), j)) ==> linkCount(old(err), j) < len(issues) && issues[linkCount(old(err), j)] == linkOf(chainAt(old(err), j))
+
+//@ func HasIssueLink$1
+//@   props C07 C11
+//@   ensures ok == typeis(err, *withIssueLink)
+
+//@ func HasIssueLink
+//@   props C07 C11
+//@   ensures result == ifOk(err, closure("issuelink.HasIssueLink$1"))
+
+//@ func HasUnimplementedError
+//@   props C07 C11
+//@   ensures result == typeis(rootOf(err), *unimplementedError)
